@@ -338,6 +338,10 @@ func (f *file) WriteBlobAt(p blob.Blob, off int64) (n int, err error) {
 		// like os.File, positional writes are invalid on a file opened with O_APPEND
 		return 0, &hackpadfs.PathError{Op: "writeat", Path: f.path, Err: hackpadfs.ErrInvalid}
 	}
+	if off < 0 {
+		// refuse before the file is grown to make room for the write
+		return 0, &hackpadfs.PathError{Op: "writeat", Path: f.path, Err: errors.New("negative offset")}
+	}
 	return f.writeBlobAt("writeat", p, off)
 }
 
